@@ -33,6 +33,9 @@ type Ent struct {
 	// Loose is set when a stage left the labels it may have added unspecified (malformed input,
 	// non-matching pattern): only labels in Base are then compared.
 	Loose bool
+	// LineAny is set when a stage's effect on this line is not fixed by the statement (decolorize
+	// over a line with escape bytes the harness did not write as colour sequences).
+	LineAny bool
 }
 
 func (e *Ent) flag() {
@@ -274,7 +277,9 @@ var (
 	numLits = map[string]float64{"200": 200, "404": 404, "0": 0, "1.5": 1.5, "42": 42, "100": 100, "7": 7, "1000": 1000, "3": 3}
 	durLits = map[string]time.Duration{"1s": time.Second, "100ms": 100 * time.Millisecond, "2m": 2 * time.Minute, "1h": time.Hour, "90s": 90 * time.Second, "150ms": 150 * time.Millisecond, "0s": 0}
 	bytLits = map[string]uint64{"1KB": 1000, "1KiB": 1024, "100B": 100, "2MB": 2000000, "10KB": 10000, "512B": 512, "1MiB": 1048576}
-	ipPats  = []string{"10.0.0.5", "10.0.0.1-10.0.0.99", "10.0.0.0/24", "192.168.0.0/16", "::1", "2001:db8::/32", "0.0.0.0/0", "172.16.5.4", "2001:db8::1-2001:db8::ff"}
+	// ranges and prefixes whose first / last address is one of ipValues (boundary membership)
+	ipPats = []string{"10.0.0.5", "10.0.0.1-10.0.0.99", "10.0.0.0/24", "192.168.0.0/16", "::1", "2001:db8::/32", "0.0.0.0/0", "172.16.5.4", "2001:db8::1-2001:db8::ff",
+		"10.0.0.5-10.0.0.200", "10.0.0.1-10.0.0.5", "10.0.0.200-10.0.1.0", "8.8.8.8-8.8.8.8", "10.0.0.4/30", "10.0.0.5/32", "10.0.0.200/29", "2001:db8::1-2001:db8:1::ffff", "::1-::1", "2001:db8:1::ffff/128", "192.168.1.77-192.168.1.77"}
 )
 
 func cmpF(op string, a, b float64) bool {
@@ -730,7 +735,13 @@ func stKeep(xs []nameOrMatcher) Stage {
 
 func stDecolorize(strip func(line string) string) Stage {
 	return stateless("decolorize", "| decolorize", func(e *Ent) bool {
-		e.Line = strip(e.Line)
+		out := strip(e.Line)
+		if out == e.Line && (strings.Contains(e.Line, "\x1b") || strings.Contains(e.Line, "\u009b")) {
+			// escape bytes that are not one of the harness's colour sequences (random bytes): whether
+			// e.g. ESC D counts as a colour sequence is not decided by the statement
+			e.LineAny = true
+		}
+		e.Line = out
 		return true
 	})
 }
